@@ -152,6 +152,7 @@ def main_check(pid, tier):
     observations = []
     extra = {}
     dead = []
+    line_hits = {}
     for spec, res, note in zip(specs, results, notes):
         if res is None:
             dead.append({"shard": spec.get("name"), "note": note})
@@ -164,6 +165,8 @@ def main_check(pid, tier):
                 samples.append(s)
         violations.extend(res.get("violations", []))
         observations.extend(res.get("observations", []))
+        for k, v in res.get("line_hits", {}).items():
+            line_hits.setdefault(k, set()).update(v)
         for k, v in res.get("extra", {}).items():
             if isinstance(v, list):
                 extra.setdefault(k, [])
@@ -244,6 +247,8 @@ def main_check(pid, tier):
         cov["programs"] = int(counters.get("programs", evaluations))
         cov["disagreements_checked"] = int(counters.get("disagreements_checked", 0))
     cov.update(extra)
+    if line_hits:
+        cov["anchor_line_coverage"] = anchor_line_coverage(pid, line_hits)
     ev = {
         "property_id": pid, "tier": tier, "seed": seed, "level": getattr(chk, "LEVEL", "exploration"),
         "coverage": cov, "assumptions": list(getattr(chk, "ASSUMPTIONS", [])),
@@ -268,14 +273,102 @@ def main_check(pid, tier):
     return 0
 
 
+def _start_line_coverage():
+    """One-shot line events (sys.monitoring, DISABLE after the first hit) on the files of the repository's package:
+    which lines of the anchored code did this shard's workload actually drive.  Evidence only, never a verdict."""
+    hit = {}
+    try:
+        mon = sys.monitoring
+        tool = mon.COVERAGE_ID
+        mon.use_tool_id(tool, "pv-linecov")
+    except Exception:
+        return hit
+    root = os.path.realpath(os.path.join(REPO, "PEPit")) + os.sep
+
+    def on_line(code, line):
+        fn = code.co_filename
+        if fn.startswith(root):
+            hit.setdefault(fn[len(root):], set()).add(line)
+        return mon.DISABLE
+
+    mon.register_callback(tool, mon.events.LINE, on_line)
+    mon.set_events(tool, mon.events.LINE)
+    return hit
+
+
+def _executable_lines(path):
+    try:
+        with open(path) as f:
+            top = compile(f.read(), path, "exec")
+    except Exception:
+        return set()
+    out, stack = set(), [top]
+    while stack:
+        co = stack.pop()
+        doc_line = None
+        for (_s, _e, ln) in co.co_lines():
+            if ln:
+                out.add(ln)
+        for c in co.co_consts:
+            if hasattr(c, "co_lines"):
+                stack.append(c)
+    return out
+
+
+def _ranges(nums):
+    nums = sorted(nums)
+    out, i = [], 0
+    while i < len(nums):
+        j = i
+        while j + 1 < len(nums) and nums[j + 1] == nums[j] + 1:
+            j += 1
+        out.append("%d" % nums[i] if i == j else "%d-%d" % (nums[i], nums[j]))
+        i = j + 1
+    return ",".join(out)
+
+
+def anchor_line_coverage(pid, hits):
+    """hits: {relative file: [lines]} merged over shards -> per anchored file covered / executable / missed ranges."""
+    import fnmatch
+    anchors = []
+    try:
+        with open(os.path.join(ROOT, "properties.jsonl")) as f:
+            for ln in f:
+                pr = json.loads(ln)
+                if pr.get("id") == pid:
+                    anchors = (pr.get("anchors") or {}).get("files", [])
+    except Exception:
+        pass
+    pats = [a[len("PEPit/"):] if a.startswith("PEPit/") else a for a in anchors]
+    out = {}
+    base = os.path.join(REPO, "PEPit")
+    for dp, _dn, fns in os.walk(base):
+        for fn in fns:
+            if not fn.endswith(".py") or fn == "__init__.py":
+                continue
+            rel = os.path.relpath(os.path.join(dp, fn), base)
+            if not any(fnmatch.fnmatch(rel, p.replace("**", "*")) for p in pats):
+                continue
+            ex = _executable_lines(os.path.join(dp, fn))
+            got = set(hits.get(rel, [])) & ex
+            if rel.startswith("examples") and not got:
+                continue
+            out[rel] = {"covered": len(got), "executable": len(ex), "missed": _ranges(ex - got)[:400]}
+    tot_c = sum(v["covered"] for v in out.values())
+    tot_e = sum(v["executable"] for v in out.values())
+    return {"files": out, "covered": tot_c, "executable": tot_e}
+
+
 def main_shard(pid, specfile, outfile):
     with open(specfile) as f:
         spec = json.load(f)
+    linecov = _start_line_coverage() if os.environ.get("PV_LINECOV", "1") == "1" else {}
     import PEPit
     assert os.path.realpath(PEPit.__file__).startswith(os.path.realpath(REPO) + os.sep), \
         "PEPit imported from %s, not from %s" % (PEPit.__file__, REPO)
     chk = load_check(pid)
     res = chk.run_shard(spec)
+    res["line_hits"] = {k: sorted(v) for k, v in linecov.items()}
     tmp = outfile + ".tmp"
     with open(tmp, "w") as f:
         json.dump(res, f, default=str)
